@@ -4,9 +4,11 @@ from framework import *
 import ppgen
 
 PARTIAL = ("map part proved in full (C03_origin_refines: lookup = per-byte provenance array for every "
-           "operation tree); the statement that every emission site of preprocess_str pushes the right "
-           "source range is tied by correspondence + the per-position search oracle, not yet by a theorem "
-           "about the event-loop model")
+           "operation tree); every emission site of the event loop is proved to push exactly the source range it copied "
+           "(C03_site_text/_string/_kept_directive/_blank/_comment), synthesised text without origin (C03_site_synthesised) "
+           "and a macro expansion with the definition's file at an offset not before its text "
+           "(C03_expansion_chunk_provenance); the composition over whole runs (which sites fire, in which order, "
+           "through includes and expansions) is tied by correspondence + the per-position search oracle")
 
 
 # ------------------------------------------------------------------ operation-level
@@ -154,7 +156,7 @@ def parse_origins(line):
     return res
 
 
-def api_oracle(files, ref_out, text, org):
+def api_oracle(files, ref_out, text, org, strip=False):
     """None if fine, else a description.  files: path -> text"""
     fb = {p: t.encode("utf-8") for p, t in files.items()}
     nb = [(i, ch) for i, ch in enumerate(text) if chr(ch) not in " \t\r\n"]
@@ -191,6 +193,8 @@ def api_oracle(files, ref_out, text, org):
         if k < len(idx): near.append(kind[idx[k]])
         if o is not None and o[0] in fb and o[1] < len(fb[o[0]]) and fb[o[0]][o[1]] == ch:
             continue
+        if strip and ch == 32 and o is not None and o[0] in fb and fb[o[0]][o[1]:o[1] + 2] == b"/*":
+            continue      # the blank that stands for a stripped block comment carries the position of the comment
         if any(p[0] in ("macro", "synth") for p in near):
             continue
         return "blank byte %d has origin %r which is not a copy of it" % (i, o)
@@ -202,10 +206,10 @@ def api_level(ctx, n):
     progs, cases = {}, []
     import ppx
     for i in range(n):
-        g = ppgen.Gen(r, max_depth=2, scenarios=(i % 3 == 2), pos=(i % 3 != 2))
+        g = ppgen.Gen(r, max_depth=2, scenarios=(i % 3 == 2), pos=(i % 3 != 2), crlf=(i % 5 == 4))
         files = g.program()
         texts = ppgen.render(files)
-        pc = ppx.PC(texts, predefs=ppx.predefs_random(r) if i % 3 == 2 else [], meta=files)
+        pc = ppx.PC(texts, predefs=ppx.predefs_random(r) if i % 3 == 2 else [], meta=files, strip=(i % 5 >= 3))
         ppx.twin_predef(r, pc)
         c = pc.case("p%d" % i, ("text", "origins"))
         cases.append(c)
@@ -237,13 +241,13 @@ def api_level(ctx, n):
         if ppx.in_D4(pc):
             ctx.count("api_known_class_D4")     # the branch taken differs from the reference by the known finding of C04
             continue
-        ref = ppgen.Ref(files, ppx.ref_predefs(pc))
+        ref = ppgen.Ref(files, ppx.ref_predefs(pc), strip=pc.strip)
         try:
             ref.eval_file("top.sv")
         except ppgen.RefError:
             ctx.count("api_ref_error")
             continue
-        why = api_oracle(texts, ref.out, text, org)
+        why = api_oracle(texts, ref.out, text, org, strip=pc.strip)
         if why == "text" and cid.startswith("bom") and bad is None:
             bad = (cid, "the output of a file that begins with a byte order mark is not the text of the file (bytes dropped or moved, so every origin is off)", texts, pc)
             continue
